@@ -90,6 +90,10 @@ Definition fis_odd_int (y : float) : bool :=
 Definition fpow (x y : float) : float :=
   if y =? 0 then 1
   else if x =? 1 then 1
+  else if y =? 2 then x * x             (* libm / numpy: exact square *)
+  else if y =? 1 then x
+  else if (y =? -1) && negb (x =? 0) then 1 / x
+  else if (y =? 0x1p-1) && (0 <=? x) then PrimFloat.sqrt x
   else if is_nan x || is_nan y then nan
   else if x =? 0 then
     (if 0 <? y then 0 else infinity)
